@@ -29,10 +29,10 @@ type sched struct {
 	pos    int
 	cuts   []int // ascending absolute positions at which a Read call stops
 	rng    *rand.Rand
-	maxN   int  // random chunking when cuts == nil: 1..maxN bytes per read
-	zeroP  int  // percent of (0, nil) reads
-	eofTog bool // deliver the last bytes together with io.EOF
-	faultP int  // percent of transient faults (random mode)
+	maxN   int          // random chunking when cuts == nil: 1..maxN bytes per read
+	zeroP  int          // percent of (0, nil) reads
+	eofTog bool         // deliver the last bytes together with io.EOF
+	faultP int          // percent of transient faults (random mode)
 	faults map[int]bool // explicit: the k-th Read call fails transiently
 	calls  int
 	handed int
@@ -124,8 +124,18 @@ type state struct {
 	idx   string
 }
 
-func snap(d *jsontext.Decoder) state {
-	s := state{off: d.InputOffset(), depth: d.StackDepth(), ptr: string(d.StackPointer())}
+// snap observes the decoder. StackPointer is not a pure observer inside the library (it copies
+// pending member names out of the buffer), so calling it after every call can mask a missing
+// copy elsewhere: scripts run both with dense and with sparse pointer observation.
+func snap(d *jsontext.Decoder) state { return snapPtr(d, true) }
+
+func snapPtr(d *jsontext.Decoder, withPtr bool) state {
+	s := state{off: d.InputOffset(), depth: d.StackDepth()}
+	if withPtr {
+		s.ptr = string(d.StackPointer())
+	} else {
+		s.ptr = "-"
+	}
 	var sb strings.Builder
 	for i := 0; i <= s.depth; i++ {
 		k, n := d.StackIndex(i)
@@ -143,7 +153,9 @@ type runResult struct {
 }
 
 // drive executes the call script against a decoder; fr is nil for the reference run.
-func drive(data []byte, d *jsontext.Decoder, fr *sched, script string, limit int) (res runResult) {
+func drive(data []byte, d *jsontext.Decoder, fr *sched, script string, limit int, ptrEvery int) (res runResult) {
+	dense := ptrEvery <= 0
+	snapL := func() state { return snapPtr(d, dense) }
 	fail := func(sub, f string, a ...any) runResult {
 		res.sub, res.bad = sub, fmt.Sprintf(f, a...)
 		return res
@@ -170,7 +182,7 @@ func drive(data []byte, d *jsontext.Decoder, fr *sched, script string, limit int
 		switch op {
 		case 'T', 'V':
 			for try := 0; ; try++ {
-				before := snap(d)
+				before := snapL()
 				var t jsontext.Token
 				var v jsontext.Value
 				if op == 'T' {
@@ -180,7 +192,7 @@ func drive(data []byte, d *jsontext.Decoder, fr *sched, script string, limit int
 				}
 				if err != nil && errors.Is(err, errTransient) {
 					res.retr++
-					if after := snap(d); after != before {
+					if after := snapL(); after != before {
 						return fail("state-changed-on-transient", "%c: state %+v -> %+v after a transient read error", op, before, after)
 					}
 					if s := conserve(); s != "" {
@@ -250,10 +262,10 @@ func drive(data []byte, d *jsontext.Decoder, fr *sched, script string, limit int
 				if try > maxRetry {
 					return fail("retry-does-not-progress", "PeekKind still fails after %d retries", try)
 				}
-				before := snap(d)
+				before := snapL()
 				k := d.PeekKind()
 				e.Kind = k.String()
-				if after := snap(d); after != before {
+				if after := snapL(); after != before {
 					return fail("peek-changed-state", "PeekKind changed state %+v -> %+v", before, after)
 				}
 				err = nil
@@ -262,7 +274,7 @@ func drive(data []byte, d *jsontext.Decoder, fr *sched, script string, limit int
 				}
 				// k == 0: the pending error is observed through the next read call.
 				for try2 := 0; ; try2++ {
-					b2 := snap(d)
+					b2 := snapL()
 					var rk jsontext.Kind
 					if op == 'R' {
 						var v jsontext.Value
@@ -281,7 +293,7 @@ func drive(data []byte, d *jsontext.Decoder, fr *sched, script string, limit int
 					}
 					if err != nil && errors.Is(err, errTransient) {
 						res.retr++
-						if after := snap(d); after != b2 {
+						if after := snapL(); after != b2 {
 							return fail("state-changed-on-transient", "read after PeekKind: state %+v -> %+v", b2, after)
 						}
 						if s := conserve(); s != "" {
@@ -313,7 +325,7 @@ func drive(data []byte, d *jsontext.Decoder, fr *sched, script string, limit int
 				break
 			}
 		}
-		st := snap(d)
+		st := snapPtr(d, dense || step%ptrEvery == ptrEvery-1)
 		e.Off, e.Depth, e.Ptr, e.Idx = st.off, st.depth, st.ptr, st.idx
 		if s := conserve(); s != "" {
 			return fail("conservation", "after %c: %s", op, s)
@@ -329,18 +341,19 @@ func drive(data []byte, d *jsontext.Decoder, fr *sched, script string, limit int
 }
 
 type scriptArgs struct {
-	Input   []byte `json:"input"`
-	Inv     bool   `json:"inv"`
-	Dup     bool   `json:"dup"`
-	Script  string `json:"script"`
-	Reader  string `json:"reader"` // "cuts" | "random" | "buffer"
-	Cuts    []int  `json:"cuts,omitempty"`
-	Faults  []int  `json:"faults,omitempty"` // indexes of Read calls that fail transiently
-	Seed    uint64 `json:"seed,omitempty"`
-	MaxN    int    `json:"max_n,omitempty"`
-	ZeroP   int    `json:"zero_p,omitempty"`
-	FaultP  int    `json:"fault_p,omitempty"`
-	EOFTog  bool   `json:"eof_together,omitempty"`
+	Input    []byte `json:"input"`
+	Inv      bool   `json:"inv"`
+	Dup      bool   `json:"dup"`
+	Script   string `json:"script"`
+	Reader   string `json:"reader"` // "cuts" | "random" | "buffer"
+	Cuts     []int  `json:"cuts,omitempty"`
+	Faults   []int  `json:"faults,omitempty"` // indexes of Read calls that fail transiently
+	Seed     uint64 `json:"seed,omitempty"`
+	MaxN     int    `json:"max_n,omitempty"`
+	ZeroP    int    `json:"zero_p,omitempty"`
+	FaultP   int    `json:"fault_p,omitempty"`
+	EOFTog   bool   `json:"eof_together,omitempty"`
+	PtrEvery int    `json:"ptr_every,omitempty"` // 0: StackPointer after every call; n: only after every n-th call
 }
 
 func (a *scriptArgs) opts() []jsontext.Options {
@@ -369,7 +382,7 @@ func runScript(w *run.W, a *scriptArgs) {
 	limit := 4*len(a.Input) + 16
 	// reference: the whole input available at once (bytes.Buffer is parsed in place)
 	refD := jsontext.NewDecoder(bytes.NewBuffer(append([]byte(nil), a.Input...)), a.opts()...)
-	want := drive(a.Input, refD, nil, a.Script, limit)
+	want := drive(a.Input, refD, nil, a.Script, limit, a.PtrEvery)
 	if want.bad != "" {
 		w.Violate(want.sub, map[string]string{"run": "reference", "reader": "bytes.Buffer"}, "reference run over bytes.Buffer: %s\ninput=%q script=%s", want.bad, a.Input, a.Script)
 		return
@@ -403,7 +416,7 @@ func runScript(w *run.W, a *scriptArgs) {
 		})
 		defer hooks.SetOnFetch(nil)
 	}
-	got := drive(a.Input, d, fr, a.Script, limit)
+	got := drive(a.Input, d, fr, a.Script, limit, a.PtrEvery)
 	if got.bad != "" {
 		w.Violate(got.sub, map[string]string{"reader": a.Reader}, "%s\ninput=%q script=%s args=%+v", got.bad, a.Input, a.Script, *a)
 		return
@@ -700,7 +713,7 @@ func generate(w *run.W) {
 				}
 				for p := 1; p < len(in); p++ {
 					w.Count("cut_"+cutClass(in, toks, p), 1)
-					w.Do("script", &scriptArgs{Input: in, Inv: cfg[0], Dup: cfg[1], Script: sc, Reader: "cuts", Cuts: []int{p}, EOFTog: (p+si)%2 == 0})
+					w.Do("script", &scriptArgs{Input: in, Inv: cfg[0], Dup: cfg[1], Script: sc, Reader: "cuts", Cuts: []int{p}, EOFTog: (p+si)%2 == 0, PtrEvery: []int{0, 5, 1000}[(p+si)%3]})
 				}
 				// 1-byte reads, with every single transient fault position
 				cuts := make([]int, len(in))
@@ -709,7 +722,7 @@ func generate(w *run.W) {
 				}
 				nreads := len(in) + 2
 				for f := 0; f < nreads; f++ {
-					w.Do("script", &scriptArgs{Input: in, Inv: cfg[0], Dup: cfg[1], Script: sc, Reader: "cuts", Cuts: cuts, Faults: []int{f, f + 1 + (f+di)%3}})
+					w.Do("script", &scriptArgs{Input: in, Inv: cfg[0], Dup: cfg[1], Script: sc, Reader: "cuts", Cuts: cuts, Faults: []int{f, f + 1 + (f+di)%3}, PtrEvery: []int{0, 7, 1000}[(f+si)%3]})
 				}
 				w.Do("script", &scriptArgs{Input: in, Inv: cfg[0], Dup: cfg[1], Script: sc, Reader: "buffer"})
 			}
@@ -758,7 +771,7 @@ func generate(w *run.W) {
 		}
 		for k := 0; k < 12; k++ {
 			a := &scriptArgs{Input: in, Inv: r.IntN(3) == 0, Dup: r.IntN(3) == 0, Script: scripts[r.IntN(len(scripts))], Reader: "random",
-				Seed: r.Uint64(), MaxN: 1 + r.IntN(1+[]int{1, 3, 9, 64, 700, 5000}[r.IntN(6)]), ZeroP: r.IntN(15), FaultP: []int{0, 0, 5, 20, 40}[r.IntN(5)], EOFTog: r.IntN(2) == 0}
+				Seed: r.Uint64(), MaxN: 1 + r.IntN(1+[]int{1, 3, 9, 64, 700, 5000}[r.IntN(6)]), ZeroP: r.IntN(15), FaultP: []int{0, 0, 5, 20, 40}[r.IntN(5)], EOFTog: r.IntN(2) == 0, PtrEvery: []int{0, 0, 3, 11, 1000}[r.IntN(5)]}
 			if r.IntN(8) == 0 {
 				a.Script = scr4[r.IntN(len(scr4))]
 			}
